@@ -61,6 +61,8 @@ MODE = [""]      # per-history emphasis chosen by gen_history: "" | "aligned" | 
 def rand_flags(r, filled):
     f = 0
     mode = MODE[0]
+    if UNIFORM[0]:        # statistics on, over-allocation allowed most of the time
+        return (NO_OVER if r.random() < 0.2 else 0) | (NO_EXTEND if filled and r.random() < 0.5 else 0) | (SOLID if r.random() < 0.2 else 0)
     if r.random() < (0.15 if mode == "solid" else 0.5):
         f |= NO_OVER
     if r.random() < (0.6 if filled else 0.15):
@@ -76,7 +78,12 @@ def rand_flags(r, filled):
     return f
 
 
+UNIFORM = [0]     # > 0: "uniform" profile - all regions about this many blocks (tight allocation statistics, holes one block off)
+
+
 def rand_len(r, cfg, big=False):
+    if UNIFORM[0] and not big:
+        return max(1, (UNIFORM[0] + r.choice([-1, 0, 0, 0, 1, 1, 2])) * cfg.bsz - r.choice([0, 0, 1]))
     blk = r.randrange(2000, 40000) if big else r.choice(SIZES)
     return max(1, blk * cfg.bsz - r.choice([0, 0, 0, 1, cfg.bsz - 1, cfg.bsz // 2]))
 
@@ -126,10 +133,12 @@ def gen_aligned_frag(r, cfg, reopen=False):
 
 def gen_history(r, cfg, nops, reopen=False, freeall=None):
     """mostly valid allocate/reallocate/deallocate mix; `reopen` adds sync/reopen/clear"""
+    UNIFORM[0] = 0
     if freeall is None and r.random() < 0.12:
         return gen_aligned_frag(r, cfg, reopen)
     ops = [cfg.line(), "check"]
     MODE[0] = r.choice(["", "", "aligned", "solid"])
+    UNIFORM[0] = r.choice([8, 10, 16, 40]) if r.random() < float(__import__("os").environ.get("UNIP", "0.35")) else 0
     filled = r.random() < (0.85 if MODE[0] == "aligned" else 0.6)
     nalloc = 0
     if filled:
@@ -191,6 +200,7 @@ def gen_history(r, cfg, nops, reopen=False, freeall=None):
     if reopen and r.random() < 0.7:
         ops += ["check", "reopen"]
     ops.append("check")
+    UNIFORM[0] = 0
     return ops
 
 
